@@ -253,8 +253,25 @@ def discharge(obls, timeout_s=30, pool=16, ctx=None):
         res = [_solve(i) for i in range(len(obls))]
     else:
         c = mp.get_context('fork')
-        with c.Pool(min(pool, len(obls))) as p:
-            res = list(p.imap_unordered(_solve, range(len(obls)), chunksize=1))
+        res = []
+        p = c.Pool(min(pool, len(obls)))
+        try:
+            it = p.imap_unordered(_solve, range(len(obls)), chunksize=1)
+            done = set()
+            for _ in range(len(obls)):
+                try:
+                    r = it.next(timeout=2 * timeout_s + 60)
+                except mp.TimeoutError:
+                    # a worker died or hangs beyond the solver's own timeout: the missing answers are `unknown`
+                    break
+                res.append(r)
+                done.add(r[0])
+            for i in range(len(obls)):
+                if i not in done:
+                    res.append((i, 'unknown', float(timeout_s), 'worker lost', False))
+        finally:
+            p.terminate()
+            p.join()
     for i, r, dt, model, trivial in res:
         out[i] = {'name': obls[i].name, 'family': obls[i].family, 'result': r, 'secs': dt, 'model': model, 'trivial': trivial}
     return out
@@ -328,6 +345,8 @@ class AReport:
         if timeout_s is None:
             timeout_s = 30 if run.tier == 'quick' else 300
         t0 = time.time()
+        if not expect_sat:
+            obls = self.drop_vacuous(obls, ctx)
         res = discharge(obls, timeout_s=timeout_s, ctx=ctx)
         fams = {}
         bad = []
@@ -354,6 +373,54 @@ class AReport:
         if run.tier == 'thorough' and not expect_sat and os.environ.get('PVF_NO_SECOND') != '1':
             self.second_pass([ob for ob, r in zip(obls, res) if r['result'] == 'unsat' and not r['trivial']], ctx)
         return bad
+
+    def drop_vacuous(self, obls, ctx):
+        """reachability per path: obligations that carry a path condition (`extra`) are only
+        meaningful if constraints + domain + path condition are satisfiable. The control solver of
+        the path executor sees the linear part only, so it may explore a path that the full
+        constraint set excludes: those obligations are dropped and counted, never reported as
+        discharged. If every path of a batch is vacuous that is a harness error."""
+        groups = {}
+        for ob in obls:
+            if ob.extra:
+                groups.setdefault(tuple(c.get_id() for c in ob.extra), []).append(ob)
+        if not groups:
+            return obls
+        vac = set()
+        for key, members in groups.items():
+            # cheap constructive witness first: a point of the box whose true-function evaluation
+            # satisfies the path condition is a model of constraints + domain + path condition
+            names = S.base_vars(list(members[0].extra), ctx)
+            found = False
+            for _ in range(150):
+                pt = sample_point(names, self.box, self.rng, self.consts)
+                pt.pop('deg', None)
+                try:
+                    ev = S.Evaluator(ctx, pt)
+                    if all(ev.holds(c) for c in members[0].extra) and all(ev.holds(c) for c in ctx.dom if S._vars_of(c) <= set(pt) | {'deg'}):
+                        found = True
+                        break
+                except (KeyError, ZeroDivisionError, ValueError, OverflowError, NotImplementedError):
+                    continue
+            if found:
+                self.run.cov['paths_with_numeric_witness'] = self.run.cov.get('paths_with_numeric_witness', 0) + 1
+                continue
+            s = z3.Solver()
+            s.set('timeout', 20000)
+            s.add(sliced_cons(list(members[0].extra), ctx))
+            s.add(ctx.dom)
+            s.add(members[0].extra)
+            r = s.check()
+            if r == z3.unsat:
+                vac.add(key)
+            elif r == z3.unknown:
+                self.run.cov['paths_reachability_unknown'] = self.run.cov.get('paths_reachability_unknown', 0) + 1
+        if vac:
+            self.run.cov['vacuous_paths_dropped'] = self.run.cov.get('vacuous_paths_dropped', 0) + len(vac)
+            if len(vac) == len(groups):
+                self.run.error('every explored path of a batch is infeasible under the full constraint set (vacuous): %s' % members[0].name[:80])
+            obls = [ob for ob in obls if not ob.extra or tuple(c.get_id() for c in ob.extra) not in vac]
+        return obls
 
     def second_pass(self, obls, ctx):
         """two-solver diff: every non-trivial `unsat` is re-asked of the system z3 4.8.12"""
@@ -521,10 +588,16 @@ class AReport:
             return
         res = common.run_replays(specs)
         seen = set()
+        from . import findings
+        kf = findings.for_property(prop)
         for spec, ob, r in zip(specs, obs, res):
             if r.get('error'):
                 run.error('replay error for "%s": %s' % (ob.name, r['error']))
             elif r.get('violated'):
+                fid = findings.match(kf, spec, str(spec.get('check') or ''), r)
+                if fid is not None:
+                    run.known_finding(fid['id'], fid['what'])
+                    continue
                 key = str(r.get('detail'))
                 if key in seen:
                     continue
